@@ -53,7 +53,7 @@ def t_STRING(t):
 
 
 def t_FUNCTION(t):
-    r'([A-Za-z]{1,}[A-Za-z_0-9\.]+(?=[(]))|([A-Za-z\.]+(?=[(]))'
+    r'([A-Za-z_][A-Za-z_0-9\.]*(?=[(]))|([A-Za-z\.]+(?=[(]))'
     return t
 
 
